@@ -323,6 +323,21 @@ theorem facts_match_compare_branches :
     Gms.Generated.C26.compareBranch_2 = ("Float32,Float64", "convertToFloat64", "return 0, err") ∧
     Gms.Generated.C26.compareBranch_0 = ("default", "convertToInt64:ShouldTruncate", "ca = 0") := by decide
 
+/-- `DecimalType_.Compare`, `YearType_.Compare`, `BitType_.Compare` (go/ast): NULLs first through
+`CompareNulls`, both operands through `ConvertToDecimal` / the type's own `Convert`, a conversion error is
+returned, then `CompareDecimals` resp. the `==`/`<` ladder on the converted values — the `.dec` and
+`.year | .bit` branches of `implCompare` / `keyOf`. -/
+theorem facts_match_compare_shapes :
+    Gms.Generated.C26.compareShapes = [
+      ("DecimalType_", ["a: t.ConvertToDecimal / on error: return 0, err", "b: t.ConvertToDecimal / on error: return 0, err",
+        "if hasNulls, res := CompareNulls(a, b); hasNulls => return res, nil", "return CompareDecimals(ad, bd), nil"]),
+      ("YearType_", ["a: t.Convert / on error: return 0, err", "b: t.Convert / on error: return 0, err",
+        "if hasNulls, res := CompareNulls(a, b); hasNulls => return res, nil", "if ai == bi => return 0, nil",
+        "if ai < bi => return -1, nil", "return 1, nil"]),
+      ("BitType_", ["a: t.Convert / on error: return 0, err", "b: t.Convert / on error: return 0, err",
+        "if hasNulls, res := CompareNulls(a, b); hasNulls => return res, nil", "if ai < bi => return -1, nil",
+        "if ai > bi => return 1, nil", "return 0, nil"])] := by decide
+
 /-! ### Order laws, for all modelled types and ALL values -/
 
 theorem cmp_refl (t : Ty) (a : Val) : implCompare t a a = .eq ∨ implCompare t a a = .err := by
